@@ -28,6 +28,7 @@
 #include <symengine/lambda_double.h>
 #include <symengine/visitor.h>
 #include <symengine/subs.h>
+#include <chrono>
 #include <cmath>
 #include <cstring>
 #include <sstream>
@@ -800,7 +801,31 @@ OP(capi_names)
     return r;
 }
 
+static double prof_total = 0, prof_bind = 0;
+static long prof_n = 0;
+OP(capi_prof)
+{
+    Val r = Val::vec({Val::dbl(prof_total), Val::dbl(prof_bind), Val::integer(prof_n)});
+    prof_total = prof_bind = 0;
+    prof_n = 0;
+    return r;
+}
+static Val op_capi_inner(Args &a);
 OP(capi)
+{
+    auto t0 = std::chrono::steady_clock::now();
+    try {
+        Val r = op_capi_inner(a);
+        prof_total += std::chrono::duration<double>(std::chrono::steady_clock::now() - t0).count();
+        prof_n++;
+        return r;
+    } catch (...) {
+        prof_total += std::chrono::duration<double>(std::chrono::steady_clock::now() - t0).count();
+        prof_n++;
+        throw;
+    }
+}
+static Val op_capi_inner(Args &a)
 {
     std::shared_ptr<Env> e = argObj<Env>(a, 0, "CapiEnv");
     const std::string &fn = argStr(a, 1);
@@ -808,23 +833,42 @@ OP(capi)
     if (it == table().end())
         throw Decline("unknown C function " + fn);
     Step s(*e);
-    if (a.size() > 2)
+    if (a.size() > 2 && a[2].k == Val::STR) {
+        // "i0,i1,..." (one token: much cheaper for the interpreter than a list of integers)
+        const std::string &t = a[2].s;
+        size_t p = 0;
+        while (p < t.size()) {
+            size_t q = t.find(',', p);
+            if (q == std::string::npos)
+                q = t.size();
+            std::string tok = t.substr(p, q - p);
+            if (tok.empty() || tok.find_first_not_of("-0123456789") != std::string::npos
+                || tok.find('-', 1) != std::string::npos || tok == "-")
+                throw Decline("sort: want Int list");
+            s.iv.push_back(integer_class(tok));
+            p = q + 1;
+        }
+    } else if (a.size() > 2) {
         for (auto &v : argVec(a, 2)) {
             if (v.k != Val::INT)
                 throw Decline("sort: want Int");
             s.iv.push_back(integer_class(v.s));
         }
+    }
     if (a.size() > 3)
         s.sv = argStr(a, 3);
     if (a.size() > 4)
         s.dv = argDbl(a, 4);
     s.res.put("fn", Val::str(fn));
+    auto tb = std::chrono::steady_clock::now();
     try {
         it->second(s);
     } catch (...) {
+        prof_bind += std::chrono::duration<double>(std::chrono::steady_clock::now() - tb).count();
         s.cleanup();
         throw;
     }
+    prof_bind += std::chrono::duration<double>(std::chrono::steady_clock::now() - tb).count();
     s.cleanup();
     s.res.put("refs", s.refs);
     s.res.put("nh", Val::integer((long)e->h.size()));
